@@ -353,14 +353,15 @@ Definition srv_faulty (steps : list step) : bool :=
 
 (* presence of the unary response ("exactly one response per unary request"; proto_s2c true [] accepts an absent one): at
    the end of a run in which nothing failed - Serve serving, every envelope handed to the server, no unary method still
-   running, no back-pressure on the server's Writes left - every id whose ONLY client envelope is a unary-method request
+   running, the server's read loop not parked under the registry lock (a live handler that is not reading holds it
+   legitimately and the request behind is not read) - every id whose ONLY client envelope is a unary-method request
    with a header has exactly one envelope from the server *)
 Definition unary_answered (steps : list step) (c2s s2c : list penv) : bool :=
   match rev steps with
   | [] => true
   | lst :: _ =>
       let so := st_so lst in
-      if so_serve so || negb (so_dc so =? so_wc so) || negb (so_urun so =? 0) || hard_faulty steps || faulty steps then true
+      if so_serve so || negb (so_dc so =? so_wc so) || negb (so_urun so =? 0) || (so_sreg so =? -1) || hard_faulty steps || faulty steps then true
       else forallb (fun i => match proj i c2s with
                              | [e] => match p_hdr e with
                                       | Some h => if (h_meth h =? 1) && has (p_body e) && negb (p_rst e) && negb (h_md h =? -1)
